@@ -2,7 +2,10 @@ import OtelVerif.Common.Line
 import OtelVerif.Model.C07
 import OtelVerif.Model.C07Map
 import OtelVerif.Model.C07Nest
+import OtelVerif.Model.C07NestRaw
+import OtelVerif.Lemmas.C07NestAll
 import OtelVerif.Model.C07Prim
+import OtelVerif.Model.C07State
 /-! driver for C07: model `c07-ptrslice` (heap model of generated pointer slices) -/
 open OtelVerif OtelVerif.Line OtelVerif.C07
 
@@ -330,6 +333,87 @@ def parseMacro (s : N.St) (toks : List String) : Option (N.St × Bool) :=
     appendRec s (← r.toNat?) (← parsePath p) (← kvNat rest "cap") fs
   | _ => none
 
+/-! `fromraw <root> <path|-> <raw>`: `Value.FromRaw(raw)` at an existing position; `raw` in prefix form, comma separated:
+`n | c<kind>.<v> | b<hex> | m<n>,k<key>,<raw>,… | a<n>,<raw>,…` (map entries in the order the implementation showed) -/
+mutual
+def parseRaw : Nat → List String → Option (N.Raw × List String)
+  | 0, _ => none
+  | _, [] => none
+  | fuel + 1, t :: rest =>
+    if t = "n" then some (.nil, rest)
+    else if t.startsWith "c" then
+      match ((t.drop 1).toString.splitOn ".") with
+      | [k, v] => do some (.scalar (← k.toNat?) (← v.toNat?), rest)
+      | _ => none
+    else if t.startsWith "b" then
+      let h := (t.drop 1).toString
+      if h.isEmpty then some (.bytes [], rest) else (unhexBytes h).map (fun bs => (.bytes bs, rest))
+    else if t.startsWith "m" then do
+      let n ← (t.drop 1).toString.toNat?
+      let (kids, rest') ← parseRawL fuel true n rest
+      some (.list true kids, rest')
+    else if t.startsWith "a" then do
+      let n ← (t.drop 1).toString.toNat?
+      let (kids, rest') ← parseRawL fuel false n rest
+      some (.list false kids, rest')
+    else none
+def parseRawL : Nat → Bool → Nat → List String → Option (N.RawL × List String)
+  | _, _, 0, rest => some (.nil, rest)
+  | 0, _, _ + 1, _ => none
+  | fuel + 1, true, n + 1, k :: rest =>
+    if k.startsWith "k" then do
+      let key ← (k.drop 1).toString.toNat?
+      let (r, rest1) ← parseRaw fuel rest
+      let (l, rest2) ← parseRawL fuel true n rest1
+      some (.cons key r l, rest2)
+    else none
+  | _ + 1, true, _ + 1, [] => none
+  | fuel + 1, false, n + 1, toks => do
+    let (r, rest1) ← parseRaw fuel toks
+    let (l, rest2) ← parseRawL fuel false n rest1
+    some (.cons 0 r l, rest2)
+end
+
+def headNew : N.Raw → NewV
+  | .nil => .nil
+  | .scalar k v => .scalar k v
+  | .bytes bs => .bytes bs
+  | .list km _ => .list km
+
+/-- `Value.FromRaw(raw)` at position `p` of root `r`, as the code does it: `Set*` / `SetEmpty*` on the value (model `setRoot` / `setSlot` of
+the existing slot), then `Map.FromRaw` / `Slice.FromRaw` on the container just made (model `stepR (.fromRawList …)`) -/
+def fromRawAt (s : N.St) (r : Nat) (p : List Sel) (raw : N.Raw) : Option (N.St × Bool) := do
+  let f := s.h.next
+  let op : N.Op ← (match p.getLast? with
+    | none => some (.setRoot r (headNew raw))
+    | some seg => do
+      let o ← resolveObj s r p.dropLast
+      let _ ← segIdx (s.h.wl o) seg
+      some (.setSlot r o seg (headNew raw) 0))
+  let (s1, p1) := N.step s op
+  if p1 then return (s, true)
+  match raw with
+  | .list _ kids => some (N.stepR s1 (.fromRawList r f kids))
+  | _ => some (s1, false)
+
+def parseFromRaw (s : N.St) (toks : List String) : Option (N.St × Bool) :=
+  match toks with
+  | ["fromraw", r, p, raw] => do
+    let ts := raw.splitOn ","
+    let (rw, rest) ← parseRaw (2 * ts.length + 2) ts
+    if !rest.isEmpty then none
+    fromRawAt s (← r.toNat?) (← parsePath p) rw
+  | ["fromrawlist", r, p, raw] => do
+    -- `Map.FromRaw` / `Slice.FromRaw` on the existing container at `p`
+    let ts := raw.splitOn ","
+    let (rw, rest) ← parseRaw (2 * ts.length + 2) ts
+    if !rest.isEmpty then none
+    let r ← r.toNat?
+    match rw, ← resolveV s r (← parsePath p) with
+    | .list km kids, .list km' o => if km == km' then some (N.stepR s (.fromRawList r o kids)) else none
+    | _, _ => none
+  | _ => none
+
 def normalize (s : N.St) : N.St :=
   let ab := ((List.range s.h.next).map s.h.wb).toArray
   let al := ((List.range s.h.next).map s.h.wl).toArray
@@ -338,21 +422,31 @@ def normalize (s : N.St) : N.St :=
 structure DS where
   H : Nat := 0
   m : N.St := St.init
+  /-- first generated op that is NOT in the domain of `C07_nest_separation_full` / `C07_nest_frame_full` (`N.WfOpX`, decidable) -/
+  outside : Option String := none
 
 def handler : Handler DS where
   init := {}
   onCase := fun s toks => { s with H := (kvNat toks "h").getD 0 }
   onOp := fun s toks =>
+    let parsed := parseOp s.m toks
     let res : Option (N.St × Bool) :=
-      match parseOp s.m toks with
+      match parsed with
       | some op => some (N.step s.m op)
-      | none => parseMacro s.m toks
+      | none => (parseMacro s.m toks) <|> (parseFromRaw s.m toks)
+    let outside := s.outside <|> (match parsed with
+      | some op => if decide (N.WfOpX s.m (.base op)) then none else some (toks.headD "?")
+      | none => none)
     match res with
     | some (m', p) =>
       let m' := normalize m'
       let dump := (List.range s.H).map (fun r => showV m'.dep m'.h (m'.root r))
-      ({ s with m := m' }, ["obs " ++ (if p then "panic" else "ok") ++ " " ++ " ".intercalate dump])
+      ({ s with m := m', outside := outside }, ["obs " ++ (if p then "panic" else "ok") ++ " " ++ " ".intercalate dump])
     | none => (s, ["obs bad-op"])
+  onEnd := fun s =>
+    match s.outside with
+    | some k => [s!"prop nestdomain=FAIL sig=C07/nest/generated-{k}-outside-the-theorem-domain"]
+    | none => ["prop nestdomain=ok"]
 
 end NestD
 
@@ -416,9 +510,80 @@ def handler : Handler DS where
 
 end PrimD
 
+
+/-! model `c07-state`: the read-only sweep against the state-propagation model (`Model/C07State.lean`) interpreted over the
+regenerated method table (`Gen/PdataState.lean`).  `op call root=<pkg.T> path=<A/B/…|-> type=<pkg.T> meth=<M> role=<recv|dest|src> kind=<mut|read>`:
+the harness marked a payload of type `root` read-only, followed the accessors `path`, reached a value of type `type` and called `meth`
+with that value as receiver (`recv`, `src` = source of a CopyTo into a mutable destination) or as destination (`dest`). -/
+namespace StateD
+open OtelVerif.Gen.PdataState OtelVerif.C07.S
+
+def shortName (ty : Nat) : String := ((types.getD ty "?.?").splitOn ".").getD 1 "?"
+
+def findMeth (ty : Nat) (name : String) : Option Meth :=
+  let full := shortName ty ++ "." ++ name
+  meths.find? (fun m => m.typ == ty && m.name == full)
+
+/-- the steps of the access path, each taking the first child wrapper the accessor constructs -/
+def stepsOf : Nat → List String → Option (List Step)
+  | _, [] => some []
+  | t, n :: ns => do
+    let m ← findMeth t n
+    let c ← m.children.head?
+    let rest ← stepsOf c.typ ns
+    some (⟨m, c, 1⟩ :: rest)
+
+structure DS where
+  pending : Option (Bool × Bool × String) := none     -- predicted panic, kind = mutator, label
+  fail : Option String := none
+  n : Nat := 0
+
+def predict (root : String) (path : List String) (ty meth role : String) : Option Bool := do
+  let rt := types.idxOf root
+  if rt ≥ types.length then none
+  let steps ← stepsOf rt path
+  let cs0 : Cells := { ro := fun _ => false, next := 2 }
+  let rootW : W := ⟨rt, 0⟩
+  let cs := markRO cs0 rootW
+  let w := follow cs rootW steps
+  if types.getD w.ty "" != ty then none
+  let m ← findMeth w.ty meth
+  let out ← (if role == "recv" || role == "src" then some (callD meths cs m w.cell 1)
+             else if role == "dest" then some (callD meths cs m 1 w.cell) else none)
+  some (match out with | .panicked _ => true | .ran => false)
+
+def handler : Handler DS where
+  init := {}
+  onOp := fun s toks =>
+    match toks with
+    | "call" :: rest =>
+      match kv rest "root", kv rest "path", kv rest "type", kv rest "meth", kv rest "role", kv rest "kind" with
+      | some root, some path, some ty, some meth, some role, some kind =>
+        let p := if path == "-" then [] else path.splitOn "/"
+        match predict root p ty meth role with
+        | some b => ({ s with pending := some (b, kind == "mut", s!"{ty}.{meth}-as-{role}"), n := s.n + 1 }, [s!"obs panicked={if b then 1 else 0}"])
+        | none => ({ s with pending := none }, ["obs bad-op"])
+      | _, _, _, _, _, _ => ({ s with pending := none }, ["obs bad-op"])
+    | _ => ({ s with pending := none }, ["obs bad-op"])
+  onObs := fun s toks =>
+    match s.pending, kvNat toks "panicked" with
+    | some (_, isMut, label), some p =>
+      -- the property itself, independent of the table: a mutator on a value reachable from a read-only payload panics, a reader runs
+      let bad := if isMut then p == 0 else p == 1
+      let fail := s.fail <|> (if bad then some s!"sig=C07/state/{label}-{if isMut then "missing-panic-on-read-only" else "reader-panicked"} call={s.n}" else none)
+      { s with pending := none, fail := fail }
+    | _, none => { s with fail := s.fail <|> some "sig=C07/state/unparsable-observation" }
+    | none, _ => s
+  onEnd := fun s =>
+    match s.fail with
+    | some f => [s!"prop rostate=FAIL {f}"]
+    | none => ["prop rostate=ok"]
+
+end StateD
+
 end OtelVerif.Drivers.C07
 
 def main : IO UInt32 :=
   runMulti [("c07-ptrslice", run OtelVerif.Drivers.C07.handler), ("c07-map", run OtelVerif.Drivers.C07.MapD.handler),
     ("c07-nest", run OtelVerif.Drivers.C07.NestD.handler),
-    ("c07-prim", run OtelVerif.Drivers.C07.PrimD.handler)]
+    ("c07-prim", run OtelVerif.Drivers.C07.PrimD.handler), ("c07-state", run OtelVerif.Drivers.C07.StateD.handler)]
